@@ -20,7 +20,7 @@ theorem not_both {f fam : Fam} {n net : Net} (h : ¬ (f = fam ∧ n = net)) : f 
 /-! ## `insert` -/
 
 def limitHit (t : Table) (src : Src) (fam : Fam) (net : Net) (rpid : Nat) : Bool :=
-  (insertPlan t src fam net rpid).isNew &&
+  !(insertPlan t src fam net rpid).sessHas &&
     (match src.lim with | some max => decide (t.ctr (src.id, fam) ≥ max) | none => false)
 
 theorem insert_eq2 (p : Profile) (t : Table) (src : Src) (fam : Fam) (net : Net) (rpid : Nat)
@@ -41,18 +41,15 @@ theorem insert_eq2 (p : Profile) (t : Table) (src : Src) (fam : Fam) (net : Net)
 /-- the three ways `insert` can end -/
 theorem insert_cases (p : Profile) (t : Table) (src : Src) (fam : Fam) (net : Net) (rpid : Nat)
     (nh : Option Nat) (attr : Attrs) (filtered nhInv : Bool) :
-    ((insertPlan t src fam net rpid).isNew = true ∧
-      t.insert p src fam net rpid nh attr filtered nhInv =
-        .ok (insertLimit t fam net (insertPlan t src fam net rpid), .limit)) ∨
+    t.insert p src fam net rpid nh attr filtered nhInv =
+        .ok (insertLimit t fam net (insertPlan t src fam net rpid), .limit) ∨
     t.insert p src fam net rpid nh attr filtered nhInv = .panic ∨
     ∃ aslen st, t.insert p src fam net rpid nh attr filtered nhInv =
       .ok (insertCommit t src fam net rpid nh attr filtered nhInv (insertPlan t src fam net rpid) aslen st) := by
   rw [insert_eq2]
   by_cases hlim : limitHit t src fam net rpid = true
   · rw [if_pos hlim]
-    unfold limitHit at hlim
-    simp only [Bool.and_eq_true] at hlim
-    exact Or.inl ⟨hlim.1, rfl⟩
+    exact Or.inl rfl
   · rw [if_neg hlim]
     right
     cases attr.asPathLen p with
@@ -77,7 +74,7 @@ theorem insert_plan_spec {c g} {t : Table} (hinv : Inv c g t) (src : Src) (fam :
   refine ⟨?_, hes, by rw [hprib, planBase_dests]⟩
   rw [hpdst]
   have := mkPlan_spec (planBase (t.rib fam) net).1 (planBase (t.rib fam) net).2 src.addr rpid
-    (by rw [← hpdst, hes]; exact (oldEs_esInv hr net).pathKeys)
+    src.id (by rw [← hpdst, hes]; exact (oldEs_esInv hr net).pathKeys)
   rw [← hpl] at this
   exact this
 
@@ -86,21 +83,11 @@ theorem entryFacts_insert {c g} (p : Profile) {t : Table} (hinv : Inv c g t) (sr
     (hstep : t.insert p src fam net rpid nh attr filtered nhInv = .ok (t', r)) :
     EntryFacts t (.insert src fam net rpid nh attr filtered nhInv) t' r := by
   obtain ⟨spec, hes, hdests⟩ := insert_plan_spec hinv src fam net rpid
-  rcases insert_cases p t src fam net rpid nh attr filtered nhInv with ⟨hnew, h⟩ | h | ⟨aslen, st, h⟩
+  rcases insert_cases p t src fam net rpid nh attr filtered nhInv with h | h | ⟨aslen, st, h⟩
   · -- prefix limit: nothing changes
-    rw [h, insertLimit_eq hinv src fam net rpid hnew] at hstep
+    rw [h, insertLimit_eq hinv src fam net rpid] at hstep
     cases hstep
-    refine ⟨?_, fun _ _ _ => rfl⟩
-    intro f n x hx
-    left
-    refine ⟨x, hx, rfl, ?_⟩
-    rintro ⟨rfl, rfl, ha, hr⟩
-    cases spec with
-    | repl i old hr' he hi hm hk hn => rw [hn] at hnew; exact absurd hnew (by simp)
-    | fresh hr' he hk hn =>
-      have := hk x (by rw [hes]; exact hx)
-      rw [matchKey_iff.mpr (by rw [ha, hr])] at this
-      exact absurd this (by simp)
+    exact ⟨fun f n x hx => Or.inl ⟨x, hx, rfl, Or.inl rfl⟩, fun _ _ _ => rfl⟩
   · rw [h] at hstep; cases hstep
   · rw [h, insertCommit_eq'] at hstep
     cases hstep
@@ -127,7 +114,7 @@ theorem entryFacts_insert {c g} (p : Profile) {t : Table} (hinv : Inv c g t) (sr
       · right
         exact ⟨⟨rfl, rfl, rfl, rfl, rfl, rfl, rfl, rfl⟩, hnl _ _⟩
       · left
-        refine ⟨x, ?_, rfl, ?_⟩
+        refine ⟨x, ?_, rfl, Or.inr ?_⟩
         · rw [← hes]; exact spec.sublist.subset hx
         · rintro ⟨_, _, ha, hr⟩
           have := spec.key_fresh x hx
@@ -143,7 +130,7 @@ theorem entryFacts_insert {c g} (p : Profile) {t : Table} (hinv : Inv c g t) (sr
         show alookup m (aset net _ (insertPlan t src fam net rpid).rib.dests) = _
         rw [alookup_aset_ne hm, hdests]
       rw [entries_of_lookup_eq hlk] at hx
-      exact ⟨x, hx, rfl, fun h => hfn ⟨h.1, h.2.1⟩⟩
+      exact ⟨x, hx, rfl, Or.inr (fun h => hfn ⟨h.1, h.2.1⟩)⟩
 
 /-! ## `remove` -/
 
@@ -179,7 +166,7 @@ theorem entryFacts_remove {c g} (p : Profile) {t : Table} (hinv : Inv c g t) (sr
     EntryFacts t (.remove src fam net rpid) t' r := by
   rcases remove_cases p t src fam net rpid with h | h | ⟨dst, i, removed, st, hl, h⟩
   · rw [h] at hstep; cases hstep
-    refine ⟨fun f n x hx => Or.inl ⟨x, hx, rfl, fun hf => hf⟩, fun hl => absurd hl (by simp)⟩
+    refine ⟨fun f n x hx => Or.inl ⟨x, hx, rfl, Or.inr (fun hf => hf)⟩, fun hl => absurd hl (by simp)⟩
   · rw [h] at hstep; cases hstep
   · rw [h, removeCommit_eq] at hstep
     cases hstep
@@ -188,7 +175,7 @@ theorem entryFacts_remove {c g} (p : Profile) {t : Table} (hinv : Inv c g t) (sr
     refine ⟨?_, fun hl => absurd hl (hnl _ _)⟩
     intro f n x hx
     left
-    refine ⟨x, ?_, rfl, fun hf => hf⟩
+    refine ⟨x, ?_, rfl, Or.inr (fun hf => hf)⟩
     by_cases hfn : f = fam ∧ n = net
     · obtain ⟨rfl, rfl⟩ := hfn
       unfold Table.entries at hx ⊢
@@ -200,7 +187,7 @@ theorem entryFacts_remove {c g} (p : Profile) {t : Table} (hinv : Inv c g t) (sr
         exact (List.eraseIdx_sublist _ _).subset hx
     · have hlk := lookup_upd (t := t) (fam := fam) (net := net)
         (r' := remRib (t.rib fam) net dst (dst.entries.eraseIdx i))
-        (aset (src.addr, fam) st t.stats) (remCtrs t src fam (dst.entries.eraseIdx i))
+        (aset (src.addr, fam) st t.stats) (remCtrs t src fam removed (dst.entries.eraseIdx i))
         (fun m hm => remRib_lookup_ne _ _ _ _ hm) f n (not_both hfn)
       rw [entries_of_lookup_eq hlk] at hx
       exact hx
